@@ -54,6 +54,7 @@ struct Run {
 };
 
 // implemented in c14_oom.cc (the TU that includes engine/faults.hh)
+void set_phase(int p);   // 0: scenario body, 1: inspecting the object left behind by the exceptional exit, 2: re-assignment and later
 void region_begin(Run& r);
 void region_end(Run& r);
 
@@ -61,6 +62,10 @@ void region_end(Run& r);
 // values in the coefficient-overflow runs; a multi-limb value in the "big" runs)
 Coefficient& MAG();
 inline Coefficient K(long v) { Coefficient c(v); c *= MAG(); return c; }
+
+// with bounded (checked native) coefficients any operation may legitimately end in std::overflow_error,
+// including the well-formed ones used by the post-checks
+inline bool bounded_coefficients() { return sizeof(Coefficient) < sizeof(mpz_class); }
 
 template <typename Body>
 inline void faulted(Run& r, Body body) {
@@ -76,11 +81,11 @@ inline void faulted(Run& r, Body body) {
 
 // ---- "can still be used": one well-formed operation per type --------------------------------
 inline void exercise(C_Polyhedron& x) {
-  if (x.space_dimension() > 0) x.add_constraint(Variable(0) >= -1000);
+  if (x.space_dimension() > 0) x.add_constraint(Variable(0) >= -100);
   (void) x.minimized_generators(); (void) x.minimized_constraints(); (void) x.is_empty();
 }
 inline void exercise(NNC_Polyhedron& x) {
-  if (x.space_dimension() > 0) x.add_constraint(Variable(0) > -1000);
+  if (x.space_dimension() > 0) x.add_constraint(Variable(0) > -100);
   (void) x.minimized_generators(); (void) x.minimized_constraints(); (void) x.is_empty();
 }
 inline void exercise(Grid& x) {
@@ -88,23 +93,23 @@ inline void exercise(Grid& x) {
   (void) x.minimized_grid_generators(); (void) x.minimized_congruences(); (void) x.is_empty();
 }
 inline void exercise(Rational_Box& x) {
-  if (x.space_dimension() > 0) x.add_constraint(Variable(0) >= -1000);
+  if (x.space_dimension() > 0) x.add_constraint(Variable(0) >= -100);
   (void) x.is_empty(); (void) x.minimized_constraints();
 }
 inline void exercise(BD_Shape<mpq_class>& x) {
-  if (x.space_dimension() > 0) x.add_constraint(Variable(0) >= -1000);
+  if (x.space_dimension() > 0) x.add_constraint(Variable(0) >= -100);
   (void) x.is_empty(); (void) x.minimized_constraints();
 }
 inline void exercise(Octagonal_Shape<mpq_class>& x) {
-  if (x.space_dimension() > 0) x.add_constraint(Variable(0) >= -1000);
+  if (x.space_dimension() > 0) x.add_constraint(Variable(0) >= -100);
   (void) x.is_empty(); (void) x.minimized_constraints();
 }
 inline void exercise(Pointset_Powerset<C_Polyhedron>& x) {
-  if (x.space_dimension() > 0) x.add_constraint(Variable(0) >= -1000);
+  if (x.space_dimension() > 0) x.add_constraint(Variable(0) >= -100);
   x.omega_reduce(); (void) x.is_empty(); (void) x.size();
 }
 inline void exercise(Pointset_Powerset<NNC_Polyhedron>& x) {
-  if (x.space_dimension() > 0) x.add_constraint(Variable(0) >= -1000);
+  if (x.space_dimension() > 0) x.add_constraint(Variable(0) >= -100);
   x.omega_reduce(); (void) x.is_empty(); (void) x.size();
 }
 inline void exercise(MIP_Problem& x) { (void) x.is_satisfiable(); (void) x.solve(); }
@@ -121,7 +126,13 @@ template <typename T> inline void exercise(Swapping_Vector<T>& x) { x.resize(x.s
 inline void exercise(Bit_Matrix& x) { x.resize(x.num_rows() + 1, x.num_columns() + 1); }
 inline void exercise(Bit_Row& x) { x.set(3); }
 
-template <typename T> inline bool ok_of(const T& x) { return x.OK(); }
+// (an OK() that throws is an OK() that fails)
+inline bool bounded_coefficients();
+template <typename T> inline bool ok_of(const T& x) {
+  try { return x.OK(); }
+  catch (const std::overflow_error&) { return bounded_coefficients(); }   // the check itself overflowed: no verdict on a bounded build
+  catch (const std::exception&) { return false; }
+}
 template <typename T> inline bool ok_of(const Swapping_Vector<T>&) { return true; }
 
 template <typename T> inline bool same(const T& x, const T& y) { return x == y; }
@@ -157,15 +168,18 @@ inline void usable(Run& r, T& x, const T& fresh, const char* nm, bool strict = t
   try {
     if (strict) {
       // the object as the exceptional exit left it: it must still be a valid object of its class
+      set_phase(1);
       if (!ok_of(x)) r.problem("invalid_after_fault", std::string(nm) + ".OK() is false after the exceptional exit (before any re-assignment)");
       else {
         try {
           exercise(x);
           if (!ok_of(x)) r.problem("invalid_after_fault", std::string(nm) + ".OK() is false after a well-formed use following the exceptional exit");
         }
+        catch (const std::overflow_error& e) { if (!bounded_coefficients()) r.problem("invalid_after_fault", std::string(nm) + ": a well-formed use following the exceptional exit throws std::overflow_error: " + e.what()); }
         catch (const std::exception& e) { r.problem("invalid_after_fault", std::string(nm) + ": a well-formed use following the exceptional exit throws " + typeid(e).name() + ": " + e.what()); }
       }
     }
+    set_phase(2);
     assign_from(x, fresh);
     if (!ok_of(x)) r.problem("assign", std::string(nm) + ".OK() is false after assignment");
     if (!same(x, fresh)) r.problem("assign", std::string(nm) + " differs from the object assigned to it");
@@ -174,6 +188,7 @@ inline void usable(Run& r, T& x, const T& fresh, const char* nm, bool strict = t
     if (!ok_of(x)) r.problem("assign", std::string(nm) + ".OK() is false after assignment and a well-formed use");
     if (!same(x, y)) r.problem("assign", std::string(nm) + ": well-formed operation after re-assignment gives a different result than on a pristine copy");
   }
+  catch (const std::overflow_error& e) { if (!bounded_coefficients()) r.problem("unusable", std::string(nm) + ": std::overflow_error in post-checks: " + e.what()); }
   catch (const std::exception& e) { r.problem("unusable", std::string(nm) + ": exception in post-checks: " + e.what()); }
   catch (...) { r.problem("unusable", std::string(nm) + ": unknown exception in post-checks"); }
 }
@@ -187,6 +202,7 @@ inline void untouched(Run& r, const T& y, const T& fresh, const char* nm) {
     if (!ok_of(y)) r.problem("not_ok", std::string(nm) + " (const operand).OK() is false");
     if (!same(y, fresh)) r.problem("operand_changed", std::string(nm) + " (const operand) changed value");
   }
+  catch (const std::overflow_error&) { }
   catch (const std::exception& e) { r.problem("unusable", std::string(nm) + ": exception in post-checks: " + e.what()); }
 }
 
